@@ -142,17 +142,20 @@ func (r *rateLimiter) UpdateRateLimitConditionStatus(upstream string, condition 
 		return nil, fmt.Errorf("limit store for upstream %s upstream shard %v not found", upstream, shardId)
 	}
 
-	upstreamCondition, err := limitStore.Get(condition.Spec.UpstreamCluster, upstreamStateConditionName(condition.Spec.UpstreamCluster))
-	if err != nil {
-		return nil, err
-	}
-
 	mutex := r.upstreamLock[condition.Spec.UpstreamCluster]
 	if mutex == nil {
 		return nil, fmt.Errorf("interval error: upstreamLock not exist")
 	}
 	mutex.Lock()
 	defer mutex.Unlock()
+
+	// the upstream state must be read under the lock: it holds the sums the quota is allocated from, and
+	// a store may replace the stored object on every save, so a state read before waiting for the lock
+	// misses what the reports served meanwhile have allocated
+	upstreamCondition, err := limitStore.Get(condition.Spec.UpstreamCluster, upstreamStateConditionName(condition.Spec.UpstreamCluster))
+	if err != nil {
+		return nil, err
+	}
 
 	// quotas on record for this instance, nothing when it has no record
 	var recordedFlowControlMap map[string]proxyv1alpha1.RateLimitItemConfiguration
